@@ -186,6 +186,8 @@ def handleCls (cls : String) (j : Json) : E Out := do
       if sh == [1] then found := true
       else if aggressive && (kind == "RG" || kind == "U") then
         if sh.any (· == 1) then found := true
+        -- an RGSpace cannot have zero axes: the constructor of the squeezed space raises
+        if kind == "RG" && sh.all (· == 1) then throw "ValueError"
         tshapes := tshapes ++ [sh.filter (· != 1)]
       else tshapes := tshapes ++ [sh]
     if !found then throw "RuntimeError"
